@@ -3,10 +3,15 @@ Correspondence: generated journals (declarations, transactions, directives, incl
 three levels deep, one to three -f files) with 0-512 injected faults are read by ledger and by
 the extracted Coq model (Model/Errors.v).  The model is handed only the *shape* of the input
 (per line: empty / blanks / indented / unindented head / include, and which error class parsing
-that line would throw; every -f file is read, error counts are summed); it predicts every located message (include chain, file, line, class,
-`lines A-B`), the error count, the exit status and whether a report is written.
-Oracle: the property text evaluated on ledger's real output from the harness's list of injected
-faults (item extents), independently of the model."""
+that line would throw whatever the options, which undeclared names it uses, whether it carries
+a balance assertion that is off; every -f file is read, error counts are summed) and the set of
+checking options (--strict --pedantic --permissive --check-payees, every subset, given on the
+command line, in an init file or through the environment); it predicts the journal's checking
+style, every located message (include chain, file, line, class, `lines A-B`), the error count,
+the exit status and whether a report is written.
+Oracle: the property text and the documented meaning of the options (--pedantic: undeclared names
+are errors, and wins over --strict; --strict: warnings; --permissive: quiet) evaluated on ledger's
+real output from the harness's list of injected faults (item extents), independently of the model."""
 import os, re, shutil
 from concurrent.futures import ThreadPoolExecutor
 import lib
@@ -14,8 +19,8 @@ import lib
 META = dict(
     id='C12',
     level='proof',
-    technique='Coq proof (the per-line reader state machine with error_flag, include counters and the exit-status mapping regenerated from main.cc, proved to report exactly one located message per invalid item) + differential correspondence of the extracted model against ledger',
-    level_text='Theorems in coq/Properties/Properties_C12.v state, for all files of any length and include nesting, that the model of instance_t::parse / read_next_directive / the block loops / include_directive writes exactly the concatenation, in file order, of one located message per invalid item (none for a valid item; an invalid item never hides a later one), that the location lies inside the item, that the error count equals the number of messages with include counts added to the parent, that a report is written iff the count is zero, that valid input is silent with status 0, that with several -f files every file is read and every invalid item of every file gets its message (counts summed), and that the exit status (main.cc mapping regenerated on every run into coq/Gen/StatusOfCount.v) is non-zero iff the count is positive. The model is tied to the code by reading thousands of generated journals with 0-512 injected faults (unbalanced, bad date, bad amount, failed assertion, unknown account/commodity/payee under --pedantic, stray and malformed directives; first/last/adjacent/inside includes) in both and comparing every message location, include chain, class, line range, count, status and stdout emptiness.',
+    technique='Coq proof (the per-line reader state machine with error_flag, include counters, the exit-status mapping regenerated from main.cc and the option precedence regenerated from session.cc, proved to report exactly one located message per invalid item) + differential correspondence of the extracted model against ledger',
+    level_text='Theorems in coq/Properties/Properties_C12.v state, for all files of any length and include nesting, that the model of instance_t::parse / read_next_directive / the block loops / include_directive writes exactly the concatenation, in file order, of one located message per invalid item (none for a valid item; an invalid item never hides a later one), that the location lies inside the item, that the error count equals the number of messages with include counts added to the parent, that a report is written iff the count is zero, that valid input is silent with status 0, that with several -f files every file is read and every invalid item of every file gets its message (counts summed), that the exit status (main.cc mapping regenerated on every run into coq/Gen/StatusOfCount.v) is non-zero iff the count is positive, and that under --pedantic without --permissive (precedence chain regenerated from session.cc into coq/Gen/CheckingStyle.v) every undeclared account, commodity, tag and (with --check-payees) payee is a counted error whatever else is set, a warning under --strict alone, quiet otherwise. The model is tied to the code by reading thousands of generated journals with 0-512 injected faults (unbalanced, bad date, bad amount, failed assertion, unknown account/commodity/tag/payee, stray and malformed directives; first/last/adjacent/inside includes) under every subset of --strict --pedantic --permissive --check-payees (command line, init file, environment) in both and comparing every message location, include chain, class, line range, count, status and stdout emptiness.',
     level_note='Trusted: Coq kernel; extraction + OCaml driver and the python harness for the correspondence; the translator pattern for the status expression in main.cc. The model receives the classification of each line (which error class parsing it throws) from the harness: that a given malformed date/amount/account is rejected by the date/amount/account code is observed through the correspondence check, not proved. Unknown payees are faults only with --check-payees (ledger documents payee checking as opt-in).',
     design_ref='DESIGN.md section 7 C12, section 3.2 (status table)',
     assumptions=['an unknown payee counts as invalid under --pedantic only together with --check-payees (documented opt-in)',
@@ -23,9 +28,44 @@ META = dict(
                  'files end with a newline or with a non-blank last line; lines are shorter than MAX_LINE'],
 )
 
-K_STRAY, K_UNBAL, K_DATE, K_AMOUNT, K_ASSERT, K_ACCOUNT, K_COMMODITY, K_PAYEE, K_OTHER = 0, 1, 2, 3, 4, 5, 6, 7, 8
+K_STRAY, K_UNBAL, K_DATE, K_AMOUNT, K_ASSERT, K_ACCOUNT, K_COMMODITY, K_PAYEE, K_OTHER, K_TAG = 0, 1, 2, 3, 4, 5, 6, 7, 8, 9
 KNAME = {0: 'stray-indented-line', 1: 'unbalanced', 2: 'bad-date', 3: 'bad-amount', 4: 'failed-assertion',
-         5: 'unknown-account', 6: 'unknown-commodity', 7: 'unknown-payee', 8: 'bad-directive'}
+         5: 'unknown-account', 6: 'unknown-commodity', 7: 'unknown-payee', 8: 'bad-directive', 9: 'unknown-tag'}
+OPTS = ['strict', 'pedantic', 'permissive', 'check_payees']
+FLAG = {'strict': '--strict', 'pedantic': '--pedantic', 'permissive': '--permissive', 'check_payees': '--check-payees'}
+ENVV = {'strict': 'LEDGER_STRICT', 'pedantic': 'LEDGER_PEDANTIC', 'permissive': 'LEDGER_PERMISSIVE', 'check_payees': 'LEDGER_CHECK_PAYEES'}
+# symbolic defects a transaction can carry -> (error class, annotation handed to the model)
+DEFECTS = ['unbal', 'date', 'amount', 'balassert', 'assertline', 'account', 'commodity', 'payee', 'tag']
+DCLASS = dict(unbal=K_UNBAL, date=K_DATE, amount=K_AMOUNT, balassert=K_ASSERT, assertline=K_ASSERT,
+              account=K_ACCOUNT, commodity=K_COMMODITY, payee=K_PAYEE, tag=K_TAG)
+A_ACCT, A_COMM, A_PAYEE, A_TAG, A_BAL = ['u', 'acct', K_ACCOUNT], ['u', 'comm', K_COMMODITY], ['u', 'payee', K_PAYEE], ['u', 'tag', K_TAG], ['b', K_ASSERT]
+TYPO_ACCOUNTS = ['Expenses:Fod', 'Expences:Food', 'Expenses:Rnet', 'Assets:Csh', 'Assets:Cash:Till', 'expenses:food', 'Liabilities:Crad', 'Income:Salery']
+TYPO_PAYEES = ['Shopp', 'Land lord', 'Employr', 'RailCo', 'shop']
+TYPO_TAGS = ['Knwon', 'Knownn', 'Receipt', 'Project']
+TYPO_COMMS = ['XYZ', 'EURO', 'USD', 'eur']
+
+
+def doc_style(o):
+    """documented meaning of the options: --permissive quiets everything, else --pedantic makes
+    undeclared names errors (and wins over --strict), else --strict makes them warnings"""
+    if o['permissive']:
+        return 'quiet'
+    if o['pedantic']:
+        return 'error'
+    if o['strict']:
+        return 'warning'
+    return 'quiet'
+
+
+def doc_reaction(o, defect):
+    """'error' | 'warning' | 'quiet' for a symbolic defect under the options, by the documentation"""
+    if defect in ('account', 'commodity', 'tag'):
+        return doc_style(o)
+    if defect == 'payee':
+        return doc_style(o) if o['check_payees'] else 'quiet'
+    if defect == 'balassert':
+        return 'quiet' if o['permissive'] else 'error'
+    return 'error'
 
 ACCOUNTS = ['Expenses:Food', 'Expenses:Rent', 'Expenses:Travel', 'Assets:Cash', 'Liabilities:Card', 'Income:Salary']
 BANK = 'Assets:Bank'
@@ -52,6 +92,8 @@ def classify(text):
         return K_COMMODITY
     if text.startswith('Unknown payee'):
         return K_PAYEE
+    if text.startswith('Unknown metadata tag'):
+        return K_TAG
     if (' amount' in text or 'Unexpected char' in text or 'not followed by argument' in text
             or 'lacks closing brace' in text):
         return K_AMOUNT
@@ -70,12 +112,14 @@ class Entry:
     """a run of physical lines that the harness regards as one item (or filler)"""
     def __init__(self, lines, faults=(), child=None, filler=False, tag=''):
         self.lines = lines            # [(text, shape)]; shape: 'e' | 'w' | ['s', k] | ['i', t, b, f] | 'inc'
-        self.faults = list(faults)    # injected fault classes (empty = valid)
+        self.faults = list(faults)    # injected fault classes that are errors under the options (empty = valid)
+        self.warns = []               # classes of undeclared names that must be warned about
         self.child = child            # JFile for an include
         self.filler = filler          # blank lines: belong to no item
         self.tag = tag
         self.first = self.last = None
         self.merge_prev = False       # stray lines swallowed by the preceding invalid item
+        self.fin_only = False
 
 
 class JFile:
@@ -89,9 +133,9 @@ class Builder:
     """Generates one case: a forest of files in reading order, tracking what a correct reader
     must know (the running balance of the asserted account over accepted transactions)."""
 
-    def __init__(self, rng, mode):
+    def __init__(self, rng, opts):
         self.rng = rng
-        self.mode = mode                      # 'pedantic+payees' | 'pedantic' | 'strict' | 'plain'
+        self.opts = opts                      # dict option -> bool
         self.bank = 0                         # cents in Assets:Bank over accepted transactions
         self.nfile = 0
         self.day = 0
@@ -99,12 +143,12 @@ class Builder:
         self.files = []                       # every JFile
         self.valid_xacts = 0
 
-    # -- which unknown names are faults in this mode
-    def acct_checked(self):
-        return self.mode.startswith('pedantic')
+    def effective(self):
+        """defects that are errors under these options"""
+        return [d for d in DEFECTS if doc_reaction(self.opts, d) == 'error']
 
-    def payee_checked(self):
-        return self.mode == 'pedantic+payees'
+    def harmless(self):
+        return [d for d in DEFECTS if doc_reaction(self.opts, d) != 'error']
 
     def new_file(self):
         self.nfile += 1
@@ -124,39 +168,38 @@ class Builder:
         rng = self.rng
         es = []
         for a in ACCOUNTS + [BANK]:
-            lines = [('account ' + a, ['i', -1, 1, -1])]
+            lines = [('account ' + a, ['i', [], 1, []])]
             if rng.random() < 0.3:
-                lines.append(('    note about %s' % a.replace(':', ' '), ['s', -1]))
+                lines.append(('    note about %s' % a.replace(':', ' '), ['s']))
             if rng.random() < 0.1:
                 lines.append(('   ', 'w'))
             es.append(Entry(lines, tag='decl'))
-        lines = [('commodity $', ['i', -1, 1, -1])]
+        lines = [('commodity $', ['i', [], 1, []])]
         if rng.random() < 0.5:
-            lines.append(('    format $1,000.00', ['s', -1]))
+            lines.append(('    format $1,000.00', ['s']))
         es.append(Entry(lines, tag='decl'))
-        es.append(Entry([('commodity EUR', ['i', -1, 1, -1])], tag='decl'))
+        es.append(Entry([('commodity EUR', ['i', [], 1, []])], tag='decl'))
+        es.append(Entry([('tag Known', ['i', [], 1, []])], tag='decl'))
         for p in PAYEES:
-            lines = [('payee ' + p, ['i', -1, 1, -1])]
+            lines = [('payee ' + p, ['i', [], 1, []])]
             if rng.random() < 0.2:
-                lines.append(('    alias %s-alias' % p.replace(' ', ''), ['s', -1]))
+                lines.append(('    alias %s-alias' % p.replace(' ', ''), ['s']))
             es.append(Entry(lines, tag='decl'))
         return es
 
     # -- transactions ------------------------------------------------------------------------
-    def xact(self, faults):
-        """faults: subset of {K_UNBAL, K_DATE, K_AMOUNT, K_ASSERT, K_ACCOUNT, K_COMMODITY, K_PAYEE}
-        injected into one transaction.  Unknown names in modes that do not check them are not
-        faults; the caller passes them in `quirks` instead."""
-        return self._xact(set(faults), set())
-
-    def quirky_xact(self, quirks):
-        return self._xact(set(), set(quirks))
-
-    def _xact(self, faults, quirks):
+    def xact(self, defects):
+        """a transaction carrying the symbolic defects (subset of DEFECTS).  Which of them are
+        errors, warnings or nothing depends on the options (doc_reaction); the model gets the raw
+        annotations and decides for itself."""
         rng = self.rng
+        d = set(defects)
+        if 'commodity' in d or 'tag' in d:
+            d.discard('balassert')             # (those transactions stay away from the asserted account)
         npost = rng.choice([2, 2, 2, 3, 3, 4])
         accts = rng.sample(ACCOUNTS, npost - 1)
-        use_bank = rng.random() < 0.6 or K_ASSERT in faults
+        can_bank = 'commodity' not in d and 'tag' not in d
+        use_bank = can_bank and (rng.random() < 0.6 or 'balassert' in d)
         last_acct = BANK if use_bank else rng.choice([a for a in ACCOUNTS if a not in accts])
         cents = [rng.choice([1, 5, 99, 100, 250, 1000, 1234, 99999, rng.randrange(1, 500000)]) * rng.choice([1, 1, 1, -1])
                  for _ in range(npost - 1)]
@@ -164,105 +207,114 @@ class Builder:
         if last == 0:
             cents[0] += 100
             last = -sum(cents)
-        elide = rng.random() < 0.4 and K_UNBAL not in faults and K_ASSERT not in faults
-        asserted = use_bank and not elide and (K_ASSERT in faults or rng.random() < 0.6)
-        # a failed assertion is either a balance assertion on a posting or an `assert EXPR` line
-        assert_line = K_ASSERT in faults and rng.random() < 0.35
-        # head
-        d = self.date()
-        t = -1
+        elide = rng.random() < 0.4 and 'unbal' not in d and 'balassert' not in d
+        asserted = use_bank and not elide and ('balassert' in d or rng.random() < 0.6)
+        comm = rng.choice(TYPO_COMMS) if 'commodity' in d else None
+
+        def amount_text(c):
+            if comm:
+                return '%s%d.%02d %s' % ('-' if c < 0 else '', abs(c) // 100, abs(c) % 100, comm)
+            return money(c)
+        # head: the date is parsed first, then the payee; a tag in its note is checked when the
+        # whole transaction is added to the journal
+        date = self.date()
+        hann = []
         payee = rng.choice(PAYEES)
-        if K_PAYEE in faults or 'payee' in quirks:
-            payee = 'Stranger %d' % self.uniq()
-        if K_DATE in faults:
-            d = rng.choice(BAD_DATES)
-        if K_DATE in faults:
-            t = K_DATE                      # the date is parsed before the payee
-        elif K_PAYEE in faults:
-            t = K_PAYEE
+        if 'date' in d:
+            date = rng.choice(BAD_DATES)
+            hann.append(K_DATE)
+        if 'payee' in d:
+            payee = rng.choice(TYPO_PAYEES + ['Stranger %d' % self.uniq()])
+            hann.append(A_PAYEE)
         state = rng.choice(['', '', '* ', '! '])
         code = rng.choice(['', '', '(%d) ' % rng.randrange(1000)])
-        head = '%s %s%s%s' % (d, state, code, payee)
-        if rng.random() < 0.15:
+        head = '%s %s%s%s' % (date, state, code, payee)
+        tagname = (rng.choice(TYPO_TAGS) + rng.choice(['', str(self.uniq())])) if 'tag' in d else None
+        tagtext = None
+        if tagname:
+            tagtext = rng.choice(['; :%s:' % tagname, '; %s: some value' % tagname, '; :Known:%s:' % tagname])
+        tag_at = rng.choice(['head', 'headnote', 'post', 'postnote']) if tagname else None
+        if tag_at == 'head':
+            head += '  ' + tagtext
+        elif rng.random() < 0.15:
             head += '  ; head note'
-        fin = K_UNBAL if K_UNBAL in faults else -1
-        lines = [(head, ['i', t, 1, fin])]
-        if rng.random() < 0.15:
-            lines.append(('    ; a note under the head', ['s', -1]))
-        # which postings carry the posting-level faults
-        pfaults = [k for k in (K_AMOUNT, K_ASSERT, K_ACCOUNT, K_COMMODITY) if k in faults]
-        slots = {}
-        for k in pfaults:
-            if k == K_ASSERT:
-                slots.setdefault(npost - 1, []).append(k)
-            else:
+        elif rng.random() < 0.05:
+            head += '  ; :Known:'
+        fin = ([K_UNBAL] if 'unbal' in d else []) + ([A_TAG] if tagname else [])
+        lines = [(head, ['i', hann, 1, fin])]
+        if tag_at == 'headnote':
+            lines.append(('    ' + tagtext, ['s']))
+        elif rng.random() < 0.15:
+            lines.append(('    ; a note under the head', ['s']))
+        # which posting carries the unknown account / the malformed amount
+        slot = {}
+        for k in ('account', 'amount'):
+            if k in d:
                 j = rng.choice([0, npost - 1, rng.randrange(npost)])
-                if elide and j == npost - 1 and k in (K_AMOUNT, K_COMMODITY):
+                if elide and j == npost - 1 and k == 'amount':
                     j = 0
-                slots.setdefault(j, []).append(k)
+                if use_bank and j == npost - 1 and k == 'account':
+                    j = 0                      # (the asserted account keeps its name)
+                slot[k] = j
+        tag_post = rng.randrange(npost) if tag_at in ('post', 'postnote') else None
         for j in range(npost):
             acct = accts[j] if j < npost - 1 else last_acct
             amt = cents[j] if j < npost - 1 else last
-            if K_UNBAL in faults and j == npost - 1:
+            if 'unbal' in d and j == npost - 1:
                 amt += rng.choice([1, -1, 100, 12345, -99999])
-            ks = slots.get(j, [])
-            thrown = -1
-            atext = money(amt)
-            if K_ACCOUNT in ks or ('account' in quirks and j == 0):
-                acct = 'Expenses:Typo%d' % self.uniq()
-            if K_COMMODITY in ks:
-                atext = '%d.%02d XYZ' % (abs(amt) // 100, abs(amt) % 100)
-            if K_AMOUNT in ks:
+            elided = (j == npost - 1 and elide)
+            # the order in which parse_post meets the problems: account, amount (its commodity is
+            # registered once the amount is parsed), then the balance assertion
+            ann = []
+            atext = amount_text(amt)
+            if slot.get('account') == j:
+                acct = rng.choice(TYPO_ACCOUNTS + ['Expenses:Typo%d' % self.uniq()])
+                ann.append(A_ACCT)
+            if slot.get('amount') == j:
                 atext = rng.choice(BAD_AMOUNTS)
+                ann.append(K_AMOUNT)
+            elif comm and not elided:
+                ann.append(A_COMM)
             tail = ''
             if j == npost - 1 and asserted:
                 want = self.bank + amt
-                if K_ASSERT in ks and not assert_line:
+                if 'balassert' in d:
                     want += rng.choice([1, -1, 700, -123456])
+                    ann.append(A_BAL)
                 tail = ' = ' + money(want)
-            # order in which parse_post meets the problems: account, amount (its commodity is
-            # registered while the amount is parsed), then the assertion
-            if K_ACCOUNT in ks:
-                thrown = K_ACCOUNT
-            elif K_AMOUNT in ks:
-                thrown = K_AMOUNT
-            elif K_COMMODITY in ks:
-                thrown = K_COMMODITY
-            elif K_ASSERT in ks and not assert_line:
-                thrown = K_ASSERT
-            if j == npost - 1 and elide:
+            if elided:
                 text = '    ' + acct
             else:
                 text = '    %s%s%s%s' % (acct, rng.choice(['  ', '    ', '\t']), atext, tail)
-            if rng.random() < 0.1 and thrown < 0:
+            if tag_post == j and tag_at == 'post':
+                text += '  ' + tagtext
+            elif rng.random() < 0.1 and not ann:
                 text += '  ; posting note'
-            lines.append((text, ['s', thrown]))
-            if rng.random() < 0.12:
-                lines.append(('    ; note after posting %d' % j, ['s', -1]))
-        if assert_line:
+            lines.append((text, ['s'] + ann))
+            if tag_post == j and tag_at == 'postnote':
+                lines.append(('    ' + tagtext, ['s']))
+            elif rng.random() < 0.12:
+                lines.append(('    ; note after posting %d' % j, ['s']))
+        if 'assertline' in d:
             lines.insert(rng.randrange(1, len(lines) + 1), ('    assert 2 + 2 == %d' % rng.choice([3, 5, 22]), ['s', K_ASSERT]))
         elif rng.random() < 0.08:
-            lines.insert(rng.randrange(1, len(lines) + 1), ('    assert 2 + 2 == 4', ['s', -1]))
+            lines.insert(rng.randrange(1, len(lines) + 1), ('    assert 2 + 2 == 4', ['s']))
         if rng.random() < 0.12:
             lines.append((rng.choice(['   ', ' ', '\t', '    \t ']), 'w'))
         if rng.random() < 0.12:
             # peek_whitespace_line and read_next_directive accept a tab as well as a blank
             lines = [(('\t' + t[4:]) if (sh != 'w' and t.startswith('    ')) else t, sh) for t, sh in lines]
-        e = Entry(lines, faults=sorted(faults), tag='xact')
+        faults = sorted({DCLASS[k] for k in d if doc_reaction(self.opts, k) == 'error'})
+        e = Entry(lines, faults=faults, tag='xact')
+        e.warns = sorted({DCLASS[k] for k in d if doc_reaction(self.opts, k) == 'warning'})
+        e.defects = sorted(d)
+        # rejected only as a whole (finalize / metadata): its block is still open at its last line
+        e.fin_only = bool(faults) and all(k in ('unbal', 'tag') for k in d if doc_reaction(self.opts, k) == 'error')
         if not faults:
             self.valid_xacts += 1
             if use_bank:
                 self.bank += last
         return e
-
-    def commodity_quirk_xact(self):
-        """an undeclared commodity where nothing checks it: a valid transaction"""
-        n = self.rng.randrange(1, 500)
-        lines = [('%s %s' % (self.date(), self.rng.choice(PAYEES)), ['i', -1, 1, -1]),
-                 ('    Expenses:Food    %d.00 XYZ' % n, ['s', -1]),
-                 ('    Assets:Cash', ['s', -1])]
-        self.valid_xacts += 1
-        return Entry(lines, tag='xact')
 
     # -- other items ---------------------------------------------------------------------------
     def filler(self):
@@ -276,103 +328,90 @@ class Builder:
         rng = self.rng
         k = rng.randrange(8)
         if k == 7:
-            return Entry([('assert 1 + 1 == 2', ['i', -1, 0, -1])], tag='dir')
+            return Entry([('assert 1 + 1 == 2', ['i', [], 0, []])], tag='dir')
         if k == 0:
-            return Entry([('; a comment line', ['i', -1, 0, -1])], tag='dir')
+            return Entry([('; a comment line', ['i', [], 0, []])], tag='dir')
         if k == 1:
-            return Entry([(rng.choice(['# another comment', '* a starred comment', '| a bar comment', ';; x']), ['i', -1, 0, -1])], tag='dir')
+            return Entry([(rng.choice(['# another comment', '* a starred comment', '| a bar comment', ';; x']), ['i', [], 0, []])], tag='dir')
         if k == 2:
-            return Entry([('P %s EUR $1.%02d' % (self.date(), rng.randrange(100)), ['i', -1, 0, -1])], tag='dir')
+            return Entry([('P %s EUR $1.%02d' % (self.date(), rng.randrange(100)), ['i', [], 0, []])], tag='dir')
         if k == 3:
-            return Entry([('Y2020', ['i', -1, 0, -1])], tag='dir')
+            return Entry([('Y2020', ['i', [], 0, []])], tag='dir')
         if k == 4:
             a = 'Expenses:Extra%d' % self.uniq()
-            lines = [('account ' + a, ['i', -1, 1, -1])]
+            lines = [('account ' + a, ['i', [], 1, []])]
             for _ in range(rng.choice([0, 1, 2])):
-                lines.append((rng.choice(['    note something', '    alias x%d' % self.uniq()]), ['s', -1]))
+                lines.append((rng.choice(['    note something', '    alias x%d' % self.uniq()]), ['s']))
             return Entry(lines, tag='dir')
         if k == 5:
-            lines = [('payee Vendor %d' % self.uniq(), ['i', -1, 1, -1])]
+            lines = [('payee Vendor %d' % self.uniq(), ['i', [], 1, []])]
             if rng.random() < 0.5:
-                lines.append(('    alias vend%d' % self.uniq(), ['s', -1]))
+                lines.append(('    alias vend%d' % self.uniq(), ['s']))
             return Entry(lines, tag='dir')
-        return Entry([('tag label%d' % self.uniq(), ['i', -1, 1, -1])], tag='dir')
+        return Entry([('tag label%d' % self.uniq(), ['i', [], 1, []])], tag='dir')
 
     def bad_directive(self):
         rng = self.rng
         k = rng.randrange(7)
         if k == 6:
-            return Entry([('assert 1 + 1 == %d' % rng.choice([1, 3]), ['i', K_ASSERT, 0, -1])], faults=[K_ASSERT], tag='dir')
+            return Entry([('assert 1 + 1 == %d' % rng.choice([1, 3]), ['i', [K_ASSERT], 0, []])], faults=[K_ASSERT], tag='dir')
         if k == 0:
-            return Entry([('P %s EUR $1.10' % rng.choice(BAD_DATES[:10]), ['i', K_DATE, 0, -1])], faults=[K_DATE], tag='dir')
+            return Entry([('P %s EUR $1.10' % rng.choice(BAD_DATES[:10]), ['i', [K_DATE], 0, []])], faults=[K_DATE], tag='dir')
         if k == 1:
-            return Entry([('P %s EUR $1.0.0' % self.date(), ['i', K_AMOUNT, 0, -1])], faults=[K_AMOUNT], tag='dir')
+            return Entry([('P %s EUR $1.0.0' % self.date(), ['i', [K_AMOUNT], 0, []])], faults=[K_AMOUNT], tag='dir')
         if k == 2:
-            return Entry([('Y', ['i', K_OTHER, 0, -1])], faults=[K_OTHER], tag='dir')
+            return Entry([('Y', ['i', [K_OTHER], 0, []])], faults=[K_OTHER], tag='dir')
         if k == 3:
-            return Entry([('include missing%d.dat' % self.uniq(), ['i', K_OTHER, 0, -1])], faults=[K_OTHER], tag='dir')
+            return Entry([('include missing%d.dat' % self.uniq(), ['i', [K_OTHER], 0, []])], faults=[K_OTHER], tag='dir')
         if k == 4:
             a = 'Expenses:Extra%d' % self.uniq()
-            lines = [('account ' + a, ['i', -1, 1, -1])]
+            lines = [('account ' + a, ['i', [], 1, []])]
             if rng.random() < 0.5:
-                lines.append(('    note fine', ['s', -1]))
+                lines.append(('    note fine', ['s']))
             lines.append(('    note', ['s', K_OTHER]))
             for _ in range(rng.choice([0, 1, 2])):
-                lines.append(('    alias y%d' % self.uniq(), ['s', -1]))
+                lines.append(('    alias y%d' % self.uniq(), ['s']))
             return Entry(lines, faults=[K_OTHER], tag='dir')
-        lines = [('payee Vendor %d' % self.uniq(), ['i', -1, 1, -1]), ('    alias', ['s', K_OTHER])]
+        lines = [('payee Vendor %d' % self.uniq(), ['i', [], 1, []]), ('    alias', ['s', K_OTHER])]
         return Entry(lines, faults=[K_OTHER], tag='dir')
 
     def stray(self):
         n = self.rng.choice([1, 1, 2, 3])
         ind = self.rng.choice(['    ', '    ', ' ', '\t'])
-        lines = [('%sExpenses:Food  $%d.00' % (ind, i + 1), ['s', -1]) for i in range(n)]
+        lines = [('%sExpenses:Food  $%d.00' % (ind, i + 1), ['s']) for i in range(n)]
         return Entry(lines, faults=[K_STRAY], tag='stray')
 
 
-XACT_FAULTS = [K_UNBAL, K_DATE, K_AMOUNT, K_ASSERT, K_ACCOUNT, K_COMMODITY, K_PAYEE]
-
-
-def fault_kinds_for(b):
-    ks = [K_UNBAL, K_DATE, K_AMOUNT, K_ASSERT]
-    if b.acct_checked():
-        ks += [K_ACCOUNT, K_COMMODITY]
-    if b.payee_checked():
-        ks += [K_PAYEE]
-    return ks
-
-
-def faulty_item(b, rng, kinds):
-    """one invalid item"""
+def faulty_item(b, rng):
+    """one invalid item: at least one defect that is an error under the options"""
     r = rng.random()
     if r < 0.08:
         return b.bad_directive()
-    ks = [rng.choice(kinds)]
-    if rng.random() < 0.2:
-        ks.append(rng.choice(kinds))           # two faults in one transaction: still one message
-    return b.xact(ks)
+    eff = b.effective()
+    ds = [rng.choice(eff)]
+    if rng.random() < 0.25:
+        ds.append(rng.choice(DEFECTS))         # a second defect, error or not: still one message
+    if ds[0] == 'balassert' and len(ds) > 1 and ds[1] in ('commodity', 'tag'):
+        ds.pop()
+    return b.xact(ds)
 
 
 def valid_item(b, rng):
+    """a valid item; now and then with defects that the options in force do not make errors"""
     r = rng.random()
     if r < 0.2:
         return b.valid_directive()
-    if r < 0.3 and not b.acct_checked():
-        return b.quirky_xact(rng.sample(['account', 'payee'], rng.choice([1, 2])))
-    if r < 0.3 and not b.payee_checked():
-        return b.quirky_xact(['payee'])
-    if r < 0.34 and not b.acct_checked():
-        return b.commodity_quirk_xact()
+    h = b.harmless()
+    if r < 0.45 and h:
+        return b.xact(rng.sample(h, min(len(h), rng.choice([1, 1, 2, 3]))))
     return b.xact([])
 
 
 def fill_file(b, rng, f, plan, depth, decls=False):
     """plan: list of 'v' (valid item) / 'f' (invalid item) / 'i' (include) in order"""
-    kinds = fault_kinds_for(b)
     if decls:
         f.entries += b.declarations()
     prev_faulty = False        # error_flag may still be set (no unindented line since an invalid item)
-    pending_stray_ok = False
     if rng.random() < 0.06:
         # an indented line before any head
         if decls or rng.random() < 0.5:
@@ -396,7 +435,7 @@ def fill_file(b, rng, f, plan, depth, decls=False):
             f.entries.append(e)
             prev_faulty = False
         elif what == 'f':
-            f.entries.append(faulty_item(b, rng, kinds))
+            f.entries.append(faulty_item(b, rng))
             prev_faulty = True
         else:
             f.entries.append(valid_item(b, rng))
@@ -408,7 +447,7 @@ def fill_file(b, rng, f, plan, depth, decls=False):
             head = last.lines[0][1]
             # directly under a block that is still open they would be read as part of it
             block_open = (what != 'i' and head[2] == 1 and last.lines[-1][1] != 'w'
-                          and not (prev_faulty and last.faults != [K_UNBAL]))
+                          and not (prev_faulty and not last.fin_only))
             if block_open:
                 gap = True
             if gap:
@@ -458,11 +497,31 @@ class Case:
     pass
 
 
-def build_case(rng, idx, nfault=None, mode=None, multi=None):
+def gen_opts(rng):
+    """a subset of the four checking options, each coming from the command line, an init file or
+    the environment"""
+    r = rng.random()
+    if r < 0.2:
+        o = dict(strict=True, pedantic=True, permissive=False, check_payees=rng.random() < 0.6)
+    elif r < 0.4:
+        o = dict(strict=False, pedantic=True, permissive=False, check_payees=rng.random() < 0.7)
+    else:
+        o = dict(strict=rng.random() < 0.4, pedantic=rng.random() < 0.5, permissive=rng.random() < 0.15,
+                 check_payees=rng.random() < 0.5)
+    src = {k: rng.choice(['cmd', 'cmd', 'cmd', 'init', 'init', 'env']) for k in OPTS if o[k]}
+    return o, src
+
+
+def build_case(rng, idx, nfault=None, opts=None, multi=None):
     c = Case()
     c.idx = idx
-    c.mode = mode or rng.choice(['pedantic+payees'] * 6 + ['pedantic'] * 2 + ['strict', 'plain'])
-    b = Builder(rng, c.mode)
+    if opts is None:
+        c.opts, c.src = gen_opts(rng)
+    else:
+        c.opts = dict(opts)
+        c.src = {k: 'cmd' for k in OPTS if c.opts[k]}
+    c.mode = '+'.join(k for k in OPTS if c.opts[k]) or 'none'
+    b = Builder(rng, c.opts)
     nroots = multi if multi is not None else (rng.choice([2, 2, 3]) if rng.random() < 0.06 else 1)
     c.roots = []
     for r in range(nroots):
@@ -513,11 +572,10 @@ def build_case(rng, idx, nfault=None, mode=None, multi=None):
 
 def fill_plain(b, rng, f, plan):
     """items separated by blank lines or adjacent; no extra strays/includes (exact fault count)"""
-    kinds = fault_kinds_for(b)
     for what in plan:
         if rng.random() < 0.5:
             f.entries.append(b.filler())
-        f.entries.append(faulty_item(b, rng, kinds) if what == 'f' else valid_item(b, rng))
+        f.entries.append(faulty_item(b, rng) if what == 'f' else valid_item(b, rng))
 
 
 def finish_case(c):
@@ -549,7 +607,7 @@ def finish_case(c):
                 prev_faulty['last'] = e.last
                 last_item = prev_faulty
                 continue
-            it = dict(file=f.name, first=e.first, last=e.last, faults=list(e.faults), tag=e.tag)
+            it = dict(file=f.name, first=e.first, last=e.last, faults=list(e.faults), warns=list(e.warns), tag=e.tag)
             c.items.append(it)
             last_item = it
             prev_faulty = it if e.faults else None
@@ -564,9 +622,10 @@ def finish_case(c):
             t += '\n'
         c.texts[f.name] = t
     c.nfaults = sum(1 for it in c.items if it['faults'])
-    flags = {'pedantic+payees': ['--pedantic', '--check-payees'], 'pedantic': ['--pedantic'],
-             'strict': ['--strict', '--check-payees'], 'plain': []}[c.mode]
-    c.args = flags + c.cmd
+    order = [k for k in OPTS if c.src.get(k) == 'cmd']
+    c.args = [FLAG[k] for k in order] + c.cmd
+    c.init = [FLAG[k] for k in OPTS if c.src.get(k) == 'init']
+    c.env = {ENVV[k]: '1' for k in OPTS if c.src.get(k) == 'env'}
 
 
 def file_id(c, f):
@@ -579,9 +638,14 @@ RE_FILE = re.compile(r'While parsing file "(.*)", line (\d+):$')
 RE_BAL = re.compile(r'While balancing transaction from "(.*)", lines? (\d+)(?:-(\d+))?:$')
 
 
+RE_WARN = re.compile(r'Warning: "(.*)", line (\d+): (.*)$')
+
+
 def parse_stderr(err, cdir):
-    """-> (messages, error_count, leftovers).  message = dict(chain, file, line, kind, range, text)"""
+    """-> (messages, error_count, leftovers, warnings).  message = dict(chain, file, line, kind,
+    range, text); warning = dict(file, line, kind, text)"""
     msgs = []
+    warns = []
     chain, cur, rng = [], None, None
     nerr = 0
     junk = []
@@ -611,10 +675,15 @@ def parse_stderr(err, cdir):
             chain, cur, rng = [], None, None
             continue
         if l.startswith('Warning: '):
+            m = RE_WARN.match(l)
+            if m:
+                warns.append(dict(file=rel(m.group(1)), line=int(m.group(2)), kind=classify(m.group(3)), text=m.group(3)))
+            else:
+                warns.append(dict(file=None, line=None, kind=99, text=l))
             continue
         if cur is None and l.strip() and not l.startswith('>'):
             junk.append(l)
-    return msgs, nerr, junk
+    return msgs, nerr, junk, warns
 
 
 def fid(name):
@@ -631,51 +700,102 @@ def canon_impl(status, out, msgs, nerr):
     return 'status=%s errors=%d report=%d msgs=%s' % (status, nerr, 1 if len(out) > 0 else 0, ';'.join(ms))
 
 
-def run_case(ctx, c):
-    cdir = ctx.path('case%d' % c.idx)
+def invoke(cdir, files, roots, args, init, env):
+    """write the case into cdir and run ledger on it -> (status, stdout, stderr text)"""
     shutil.rmtree(cdir, ignore_errors=True)
     os.makedirs(cdir)
-    for name, text in c.texts.items():
+    for name, text in files.items():
         with open(os.path.join(cdir, name), 'w') as fh:
             fh.write(text)
-    args = []
-    for r in c.roots:
-        args += ['-f', os.path.join(cdir, r.name)]
-    st, out, err = lib.run_ledger(args + c.args, timeout=120)
+    pre = []
+    if init:
+        ip = os.path.join(cdir, 'init.rc')
+        with open(ip, 'w') as fh:
+            fh.write('\n'.join(init) + '\n')
+        pre = ['--init-file', ip]          # (overrides the harness's --init-file /dev/null)
+    fargs = []
+    for r in roots:
+        fargs += ['-f', os.path.join(cdir, r)]
+    st, out, err = lib.run_ledger(pre + fargs + list(args), timeout=120, env=lib.ledger_env(env) if env else None)
+    return st, out, err.decode('utf-8', 'replace')
+
+
+def run_case(ctx, c):
+    cdir = ctx.path('case%d' % c.idx)
+    roots = [r.name for r in c.roots]
+    st, out, err = invoke(cdir, c.texts, roots, c.args, c.init, c.env)
+    base = None
+    if c.nfaults == 0 and c.mode != 'none':
+        # the same journal without any checking option: a valid journal's report must not depend on them
+        base = invoke(cdir, c.texts, roots, c.cmd, [], {})
     shutil.rmtree(cdir, ignore_errors=True)
-    return st, out, err.decode('utf-8', 'replace'), cdir
+    return st, out, err, cdir, base
 
 
 # ---- oracle: the property text on ledger's real output ------------------------------------------
-def oracle(items, roots, status, out, msgs, nerr, stderr_text, mode):
-    """items: what was injected (file, first, last, faults).  Returns [(key, desc, observed, required)]."""
+def oracle(items, roots, status, out, msgs, nerr, stderr_text, opts, warns=(), base=None):
+    """items: what was injected (file, first, last, faults = classes that are errors under the
+    options by their documented meaning, warns = classes that must be warned about).
+    Returns [(key, desc, observed, required)]."""
     v = []
+    mode = '+'.join(k for k in OPTS if opts.get(k)) or 'none'
+    style = doc_style(opts)
     faulty = [it for it in items if it['faults']]
+    NAMEK = (K_ACCOUNT, K_COMMODITY, K_PAYEE, K_TAG)
+
+    def inside(w, it):
+        return w['file'] == it['file'] and w['line'] is not None and it['first'] <= w['line'] <= it['last']
+
+    # warnings: only --strict (without --pedantic / --permissive) warns, and then about every
+    # undeclared name
+    if style != 'warning' and warns:
+        w = warns[0]
+        if not (style == 'error' and any(inside(w, it) for it in faulty)):     # (reported below, more precisely)
+            v.append(('warning-without-strict:' + mode, 'a Warning: line although the options in force do not ask for warnings: %r' % w['text'],
+                      w['text'], 'no warning'))
+    if style == 'warning':
+        for it in items:
+            if it.get('warns') and not it['faults']:
+                if any(inside(w, it) and w['kind'] in it['warns'] for w in warns):
+                    continue
+                names = '+'.join(KNAME[k] for k in it['warns'])
+                if it['file'] not in roots and any(w['kind'] in it['warns'] and w['file'] in roots for w in warns):
+                    v.append(('strict-warning-located-at-include-directive',
+                              'under --strict the undeclared name (%s) in the included file %s lines %d-%d is warned about, but the '
+                              'warning names the including file and the line of its include directive' % (names, it['file'], it['first'], it['last']),
+                              [w['text'] for w in warns][:5], 'a Warning: naming the file and a line of the item'))
+                else:
+                    v.append(('strict-warning-missing:' + names,
+                              'under --strict the undeclared name in %s lines %d-%d got no located warning' % (it['file'], it['first'], it['last']),
+                              [w['text'] for w in warns][:5], 'a Warning: naming the file and a line of the item'))
     if not faulty:
         if nerr or 'While parsing file' in stderr_text:
-            v.append(('clean-journal:error-message', 'a journal in which every item is valid produced an error message',
+            v.append(('clean-journal:error-message', 'a journal in which every item is valid (options: %s) produced an error message' % mode,
                       stderr_text[:300], 'no error message'))
-        if mode != 'strict' and stderr_text.strip():
-            if not nerr:
-                v.append(('clean-journal:stderr-output', 'a valid journal produced output on stderr', stderr_text[:300], 'empty stderr'))
+        if not warns and stderr_text.strip() and not nerr:
+            v.append(('clean-journal:stderr-output', 'a valid journal produced output on stderr', stderr_text[:300], 'empty stderr'))
         if status != 0:
             v.append(('clean-journal:nonzero-status', 'a journal in which every item is valid exits non-zero', 'status=%s' % status, 'status 0'))
+        if base is not None and base[0] == 0 and status == 0 and base[1] != out and not out.startswith(b'<?xml'):   # (xml lists commodity flags, incl. 'known')
+            v.append(('report-depends-on-checking-options:' + mode, 'the report of a valid journal differs from the report without checking options',
+                      out[:300].decode('utf-8', 'replace'), base[1][:300].decode('utf-8', 'replace')))
         return v
     n = len(faulty)
     if status == 0:
         v.append(('status-zero-with-faults:%s' % ('multiple-of-256' if n % 256 == 0 else 'count-not-multiple-of-256'),
-                  '%d invalid items, exit status 0' % n, 'status=0', 'non-zero status'))
+                  '%d invalid items (options: %s), exit status 0' % (n, mode), 'status=0', 'non-zero status'))
     elif not isinstance(status, int) or status < 0:
         v.append(('abnormal-termination', 'ledger died reading a journal with %d invalid items' % n, 'status=%s' % status, 'an orderly non-zero exit'))
     if len(out) > 0:
-        v.append(('report-written-despite-faults', '%d invalid items but %d bytes on stdout' % (n, len(out)), out[:200].decode('utf-8', 'replace'), 'empty stdout'))
+        v.append(('report-written-despite-faults', '%d invalid items (options: %s) but %d bytes on stdout' % (n, mode, len(out)),
+                  out[:200].decode('utf-8', 'replace'), 'empty stdout'))
     # one located message per invalid item
     hits = {}
     stray_msgs = []
     for m in msgs:
         owner = None
         for k, it in enumerate(faulty):
-            if it['file'] == m['file'] and m['line'] is not None and it['first'] <= m['line'] <= it['last']:
+            if inside(m, it):
                 owner = k
                 break
         if owner is None:
@@ -687,8 +807,10 @@ def oracle(items, roots, status, out, msgs, nerr, stderr_text, mode):
         names = '+'.join(KNAME[f] for f in it['faults'])
         if not got:
             key = 'fault-unreported:in-later-f-file' if it.get('root_index', 0) > 0 else 'fault-unreported:' + names
-            v.append((key, 'the invalid item at %s lines %d-%d (%s) got no message naming that file and a line of the item'
-                      % (it['file'], it['first'], it['last'], names), 'messages: %d' % len(msgs), 'one located message'))
+            if all(f in NAMEK for f in it['faults']) and any(inside(w, it) for w in warns):
+                key = 'undeclared-name-only-warned-under-pedantic:' + mode
+            v.append((key, 'the invalid item at %s lines %d-%d (%s; options: %s) got no Error: message naming that file and a line of the item'
+                      % (it['file'], it['first'], it['last'], names, mode), 'messages: %d, warnings: %d' % (len(msgs), len(warns)), 'one located message'))
         elif len(got) > 1:
             v.append(('several-messages-for-one-item:' + names, 'the invalid item at %s lines %d-%d got %d messages'
                       % (it['file'], it['first'], it['last'], len(got)), [g['text'] for g in got], 'one message'))
@@ -698,8 +820,8 @@ def oracle(items, roots, status, out, msgs, nerr, stderr_text, mode):
                 v.append(('line-range-outside-item:' + names, 'line range %s is not inside the item %d-%d' % (g['range'], it['first'], it['last']),
                           str(g['range']), 'a range inside the item'))
     for m in stray_msgs:
-        v.append(('message-not-located-in-an-invalid-item', 'message %r at %s line %s is not inside any invalid item'
-                  % (m['text'], m['file'], m['line']), '%s:%s' % (m['file'], m['line']), 'messages only for invalid items'))
+        v.append(('message-not-located-in-an-invalid-item', 'message %r at %s line %s is not inside any invalid item (options: %s)'
+                  % (m['text'], m['file'], m['line'], mode), '%s:%s' % (m['file'], m['line']), 'messages only for invalid items'))
     if nerr != len(msgs):
         v.append(('unlocated-error', 'an Error: line without a file/line location', 'errors=%d located=%d' % (nerr, len(msgs)), 'every error located'))
     return v
@@ -720,23 +842,34 @@ def root_index_of(c):
 
 
 def case_record(c):
-    return dict(files=c.texts, roots=[r.name for r in c.roots], args=c.args, items=c.items, mode=c.mode)
+    return dict(files=c.texts, roots=[r.name for r in c.roots], args=c.args, cmd=c.cmd, init=c.init, env=c.env,
+                opts=c.opts, items=c.items, mode=c.mode)
+
+
+def strip_ranges(ms):
+    """`lines A-B` is printed by ledger for a transaction that does not balance only; the model
+    carries the item's range on every whole-item rejection"""
+    return re.sub(r'(:(?!1:)\d+):\d+-\d+(?=;|$)', r'\1:-', ms)
 
 
 def evaluate(ctx, res, cases, tagname):
     """run ledger (in parallel) and the model on the cases; compare; judge"""
     with ThreadPoolExecutor(max_workers=min(8, lib.NCPU)) as ex:
         outs = list(ex.map(lambda c: run_case(ctx, c), cases))
-    lines = [lib.sx(['case', '%s%d' % (tagname, c.idx)] + c.shapes) for c in cases]
+    lines = [lib.sx(['case', '%s%d' % (tagname, c.idx), ['opts'] + [c.opts[k] for k in OPTS]] + c.shapes) for c in cases]
     model = lib.run_model('C12', lines)
-    for c, (st, out, err, cdir), ml in zip(cases, outs, model):
+    for c, (st, out, err, cdir, base), ml in zip(cases, outs, model):
         res.evaluations += 1
         res.traces += 1
-        msgs, nerr, junk = parse_stderr(err, cdir)
+        msgs, nerr, junk, warns = parse_stderr(err, cdir)
         impl = canon_impl(st, out, msgs, nerr)
         mid, _, mrest = ml.partition(' ')
         mclean = re.search(r' clean=(\d)', mrest)
+        mstyle = re.search(r' style=(\w+)', mrest)
         mcmp = re.sub(r' clean=\d', '', mrest)
+        mcmp = re.sub(r' style=\w+', '', mcmp)
+        head, sep, ms = mcmp.partition('msgs=')
+        mcmp = head + sep + strip_ranges(ms)
         if c.nfaults == 0 and c.valid_xacts == 0:
             # nothing to report on: stdout may legitimately be empty; compare the rest
             impl = re.sub(r'report=\d', 'report=*', impl)
@@ -748,29 +881,41 @@ def evaluate(ctx, res, cases, tagname):
         if mclean and (mclean.group(1) == '1') != (c.nfaults == 0):
             res.disagreements.append(dict(name='C12/clean-spec', case=rec or case_record(c),
                                           impl='injected faults: %d' % c.nfaults, model='file_clean=%s' % mclean.group(1)))
+        # the model's checking style (chain regenerated from session.cc) against the documented one
+        want = {'error': 'error', 'warning': 'warning', 'quiet': 'permissive' if c.opts['permissive'] else 'normal'}[doc_style(c.opts)]
+        if mstyle and mstyle.group(1) != want:
+            res.disagreements.append(dict(name='C12/checking-style-vs-documentation', case=c.mode,
+                                          impl='documented: %s' % want, model=mstyle.group(1)))
+        # what the implementation's checking style must have been: warnings only in warning style
         if junk:
             res.disagreements.append(dict(name='C12/unparsed-stderr', case=rec or case_record(c), impl=junk[:5], model=''))
         ridx = root_index_of(c)
         for it in c.items:
             it['root_index'] = ridx[it['file']]
-        for key, desc, obs, req in oracle(c.items, [r.name for r in c.roots], st, out, msgs, nerr, err, c.mode):
+        for key, desc, obs, req in oracle(c.items, [r.name for r in c.roots], st, out, msgs, nerr, err, c.opts, warns, base):
             res.violations.append(dict(key=key, desc=desc, case=case_record(c), observed=obs, required=req))
         # bookkeeping
-        res.count('mode:' + c.mode)
+        res.count('options:' + c.mode)
+        for k, v in c.src.items():
+            res.count('option-source:' + v)
         res.count('faults:%s' % bucket(c.nfaults))
         res.count('files:%d' % len(c.files))
         res.count('roots:%d' % len(c.roots))
         for it in c.items:
             for k in it['faults']:
                 res.count('fault:' + KNAME[k])
+            for k in it['warns']:
+                res.count('expected-warning:' + KNAME[k])
         for m in msgs:
             res.count('impl-message:' + KNAME.get(m['kind'], 'unclassified'))
             if m['chain']:
                 res.count('impl-message-in-include:depth%d' % len(m['chain']))
-        if c.nfaults > 0 or len(c.files) > 1:
-            res.nontrivial.add(lib.sx(c.shapes))
+        for w in warns:
+            res.count('impl-warning:' + KNAME.get(w['kind'], 'unclassified'))
+        if c.nfaults > 0 or len(c.files) > 1 or any(it['warns'] for it in c.items):
+            res.nontrivial.add(c.mode + ' ' + lib.sx(c.shapes))
         if len(res.samples) < 4 and 0 < c.nfaults < 4 and len(c.files) <= 2:
-            res.samples.append(dict(args=c.args, files=c.texts, impl=impl, model=mcmp))
+            res.samples.append(dict(args=c.args, init_file=c.init, env=c.env, files=c.texts, impl=impl, model=mcmp))
 
 
 def bucket(n):
@@ -802,9 +947,11 @@ def run(ctx, n_override=None):
     res.rule = ('journals of 1-3 -f files with include files up to 3 levels deep, 0-30 items each (declarations, transactions of 2-4 '
                 'postings with notes / elided amounts / correct balance assertions, one-line and block directives, blank and '
                 'whitespace-only lines) with faults injected first / last / adjacent / inside includes: unbalanced, 12 malformed dates, '
-                '10 malformed amounts, failed assertion, unknown account / commodity / payee under --pedantic [--check-payees], '
+                '10 malformed amounts, failed balance assertion / assert line, undeclared (misspelt) account / commodity / tag / payee, '
                 'malformed directives, stray indented lines, two faults in one transaction; plus journals with exactly 255, 256, 257, '
-                '300, 512 and random 100-300 faults; non-trivial = at least one injected fault or one include; distinct by shape')
+                '300, 512 and random 100-300 faults; each journal is read under a subset of --strict --pedantic --permissive --check-payees '
+                '(all 16 occur), each option given on the command line, in an init file or through LEDGER_* in the environment; '
+                'non-trivial = at least one injected fault, expected warning or include; distinct by options + shape')
     n = n_override or ctx.scale(2500, 20000)
     cases = []
     for i in range(n):
@@ -813,7 +960,13 @@ def run(ctx, n_override=None):
     if ctx.tier == 'thorough':
         bigs += [255, 256, 257, 300, 512, 511, 513, 768, 1024]
     for k, nf in enumerate(bigs):
-        cases.append(build_case(rng, n + k, nfault=nf, mode=rng.choice(['pedantic+payees', 'pedantic+payees', 'pedantic', 'plain']), multi=1))
+        cases.append(build_case(rng, n + k, nfault=nf, multi=1, opts=rng.choice([
+            dict(strict=False, pedantic=True, permissive=False, check_payees=True), dict(strict=True, pedantic=True, permissive=False, check_payees=True),
+            dict(strict=False, pedantic=True, permissive=False, check_payees=False), dict(strict=False, pedantic=False, permissive=False, check_payees=False)])))
+    # directed: every subset of the four options on small journals with undeclared names
+    for k in range(16 * ctx.scale(2, 10)):
+        o = {name: bool((k >> i) & 1) for i, name in enumerate(OPTS)}
+        cases.append(build_case(rng, 100000 + k, opts=o))
     # directed: several -f files with faults in a later one
     for k in range(ctx.scale(6, 40)):
         cases.append(build_case(rng, n + len(bigs) + k, multi=rng.choice([2, 3])))
@@ -825,6 +978,8 @@ def run(ctx, n_override=None):
     try:
         gen = open(os.path.join(lib.COQ, 'Gen', 'StatusOfCount.v')).read()
         res.extra['generated_tables'] = {'Gen/StatusOfCount.v': [l for l in gen.split('\n') if l.startswith('Definition') or 'shape' in l]}
+        gen = open(os.path.join(lib.COQ, 'Gen', 'CheckingStyle.v')).read()
+        res.extra['generated_tables']['Gen/CheckingStyle.v'] = [l for l in gen.split('\n') if l.startswith('Definition') or 'precedence' in l]
     except OSError:
         pass
     res.notes.append('side observation (C09, not judged here): journal_t::read ends with clear_xdata(), so a balance assertion in a '
@@ -851,18 +1006,15 @@ def replay(ctx, obj):
         print('replay: nothing to run (%s)' % obj.get('kind'))
         return res
     cdir = ctx.path('replay')
-    shutil.rmtree(cdir, ignore_errors=True)
-    os.makedirs(cdir)
-    for name, text in case['files'].items():
-        open(os.path.join(cdir, name), 'w').write(text)
-    args = []
-    for r in case['roots']:
-        args += ['-f', os.path.join(cdir, r)]
-    st, out, err = lib.run_ledger(args + case['args'])
-    err = err.decode('utf-8', 'replace')
-    msgs, nerr, junk = parse_stderr(err, cdir)
-    print('replay: ledger %s -> status %s, %d Error: lines, %d bytes on stdout' % (' '.join(case['args']), st, nerr, len(out)))
-    for key, desc, obs, req in oracle(case['items'], case['roots'], st, out, msgs, nerr, err, case.get('mode')):
+    st, out, err = invoke(cdir, case['files'], case['roots'], case['args'], case.get('init') or [], case.get('env') or {})
+    opts = case.get('opts') or {k: False for k in OPTS}
+    base = None
+    if not any(it['faults'] for it in case['items']) and any(opts.values()):
+        base = invoke(cdir, case['files'], case['roots'], case.get('cmd') or case['args'], [], {})
+    msgs, nerr, junk, warns = parse_stderr(err, cdir)
+    print('replay: ledger %s (init file: %s; environment: %s) -> status %s, %d Error: lines, %d Warning: lines, %d bytes on stdout'
+          % (' '.join(case['args']), ' '.join(case.get('init') or []) or '-', case.get('env') or '-', st, nerr, len(warns), len(out)))
+    for key, desc, obs, req in oracle(case['items'], case['roots'], st, out, msgs, nerr, err, opts, warns, base):
         print('replay: %s: %s' % (key, desc))
         if key == obj.get('key'):
             res.violations.append(dict(key=key, desc=desc))
